@@ -22,10 +22,23 @@ ENTITY = re.compile(r'&(?:#[0-9]{1,7}|#[xX][0-9a-fA-F]{1,6}|[A-Za-z0-9]{1,32});'
 
 def line_reason(line, k):
     """k = 0 for the first line of the paragraph."""
-    if line.strip(' ') == '':
+    if line.strip(' \t') == '':
         return 'blank line'
-    if '\t' in line:
+    lead = line[:len(line) - len(line.lstrip(' \t'))]
+    if '\t' in line[len(lead):]:
         return 'tab'
+    if '\t' in lead and k == 0:
+        return 'tab'
+    if k > 0 and ('\t' in lead or len(lead) >= 4):
+        # 4.4 / 4.8: a continuation line indented by four or more columns (any leading whitespace that contains a tab
+        # reaches column 4) cannot start a block - indented code does not interrupt a paragraph, every other block start
+        # allows at most three columns; the setext underline (4.3) likewise.  A possible GFM delimiter row is kept out.
+        rest = line[len(lead):]
+        if ('|' in rest or ':' in rest) and SETEXT_OR_DELIM_ROW.match(rest):
+            return 'setext underline / table delimiter row'
+        if line.endswith('  ') or line.endswith('\\'):
+            return 'hard line break'
+        return None
     if ATX.match(line):
         return 'ATX heading start'
     if HR.match(line):
@@ -56,7 +69,7 @@ def paragraph_reason(lines):
         r = line_reason(line, k)
         if r:
             return r
-    text = '\n'.join(l.strip(' ') for l in lines)
+    text = '\n'.join(l.lstrip(' \t').rstrip(' ') for l in lines)
     if '\\' in text:
         return 'backslash'
     if '`' in text:
